@@ -710,10 +710,16 @@ func ruleSharedInstance(c *Ctx, rule string) {
 			if p.isGenerated(g.Pos()) || !g.Pos().IsValid() || isSyncType(t) {
 				continue
 			}
-			if _, isPtr := t.Underlying().(*types.Pointer); !isPtr {
+			isMut, via := false, ""
+			switch t.Underlying().(type) {
+			case *types.Pointer:
+				isMut, via = mutable(t)
+			case *types.Map:
+				// a map is shared by reference: whoever is handed it can write into it
+				isMut, via = true, "any assignment to an element"
+			default:
 				continue
 			}
-			isMut, via := mutable(t)
 			name := strings.ReplaceAll(g.String(), modPath+"/", "")
 			if !isMut {
 				c.OK(rule, name, p.Pos(g.Pos()), "refers to an object without mutating methods")
